@@ -50,6 +50,11 @@ CHECKS = {
    technique="explicit-state BFS over request/response/clock histories of the real caching and response-based-throttling remedies (real MemoryCache with sleeper goroutines, virtual time); schedule exploration of concurrent stores and read-vs-expiry",
    text="For the caching remedy (size limit: two entries fit / all fit) and the throttling remedy (relative / absolute retry-after) every history up to depth 6 (7 thorough) over three keys differing in method / selected path parameter and clock steps of TTL-1ns, 1ns, 1s runs on the real plugins. Every answer from memory must equal a response shown earlier for the same key within its lifetime, a replayed relative retry-after must be reduced by exactly the elapsed time, the cache's actual content never exceeds the configured size; schedules (<=2 preemptions) cover two concurrent stores with one slot left and a reader racing the expiry sleeper.",
    note="safety only (misses are legal; hit counts in evidence); boundary instant t = s+ttl left open; 1 microsecond slack for absolute epoch values; state key = cache dump + live candidates + sub-second phase"),
+
+ "C11": dict(level="model_checking", engine="seqx-bfs+schedx", design="§3 C11",
+   technique="explicit-state BFS over transaction / reload / revert / clock histories of the real TxnPoliciesAccessor with its vacuum goroutines (virtual time); schedule exploration of request-vs-reload, reload-vs-reload and response-vs-vacuum",
+   text="Every history up to depth 6 (8 thorough) of {request / response of two transaction slots, reload through a new policies file, revert, revert-diagnosis-free, clock steps 1/5/24/31 s} runs on the real accessor (real MapVacuum goroutines, files in a scratch dir, HAProxy = in-process RoundTripper). A look-up within 30 s of a transaction's first look-up must return the version it saw first; a transaction starting after a reload must get the newest. Schedules (<=2 preemptions) cover a first look-up racing a reload, two overlapping reloads with a transaction pinned in between, and a response at exactly 30 s racing the vacuum passes.",
+   note="versions are recognised by a marker endpoint; state key = accessor dump (versions and pins relative to current) + slot ages; admin API always answers 200"),
 }
 NA_REASON = "check not built yet in this round (work in progress; planned per DESIGN.md §3)"
 def main():
